@@ -599,6 +599,36 @@ def block_readers_agree(ctx):
             ctx.unsure('%s: network=%s' % (qual, net))
 
 
+@PROP.obligation('C06.legacy-no-witness', canaries=[
+    mut.replace_expr('transactions', 'Transaction.raw', "i.witnesses and i.witness_type != 'legacy'", 'i.witnesses', 'legacy inputs serialised with a witness stack'),
+])
+def legacy_no_witness(ctx):
+    """Transaction.raw: Input.update_scripts fills Input.witnesses with [signature, key] for every single-key input, also legacy P2PKH ones.
+    The statement that serialises the witness stack of an input is therefore guarded by a test that is false for witness_type 'legacy'
+    (evaluated) - a legacy input inside a segwit-serialised transaction carries the empty stack 00 - and true for segwit and p2sh-segwit."""
+    q = 'transactions:Transaction.raw'
+    fn = ctx.repo.func(q)
+    ifs = [n for n in ast.walk(fn) if isinstance(n, ast.If) and any(isinstance(x, ast.AugAssign) and norm(x.target) == 'r_witness' and 'witnesses' in norm(x.value) for x in n.body)]
+    if len(ifs) != 1:
+        ctx.undecided('Transaction.raw: statement that serialises the witness stack of an input not found')
+    it = Interp(ctx.repo, 'transactions', self_cls='transactions:Transaction')
+    I = ('var', 'i')
+    res = {}
+    for wt in ('legacy', 'segwit', 'p2sh-segwit'):
+        st = State(env={'i': S(I), 'self': S(('var', 'self'))})
+        st.heap[('attr', I, 'witnesses')] = [b'sig', b'key']
+        st.heap[('attr', I, 'witness_type')] = wt
+        v = it.truth(it.eval(ifs[0].test, st), st)
+        if not isinstance(v, bool):
+            ctx.undecided('Transaction.raw: witness guard `%s` not decidable' % norm(ifs[0].test))
+        res[wt] = v
+    ctx.saw('input with a filled witnesses list: stack serialised for %s' % res)
+    ctx.require(res['legacy'] is False, q, 'the witness stack of a LEGACY input is serialised (guard `%s`)' % norm(ifs[0].test), ifs[0],
+                'a parsed transaction that mixes P2PKH and segwit inputs re-serialises 107 bytes longer per legacy input')
+    ctx.require(res['segwit'] and res['p2sh-segwit'], q, 'the witness stack of segwit inputs is not serialised', ifs[0])
+    ctx.require(any(isinstance(x, ast.AugAssign) and norm(x.target) == 'r_witness' and norm(x.value) in ("b'\\x00'",) for x in ifs[0].orelse), q, 'inputs without witness do not get the empty stack 00', ifs[0])
+
+
 @PROP.obligation('C06.version-writers', canaries=[
     mut.replace_expr('transactions', 'Transaction.sign_and_update', "self.version_int.to_bytes(4, 'big')", "self.version_int.to_bytes(4, 'little')", 'version bytes rebuilt little endian'),
     mut.replace_expr('transactions', 'Transaction.add_input', "b'\\x00\\x00\\x00\\x02'", "b'\\x02\\x00\\x00\\x00'", 'version bytes of the BIP68 upgrade in wire order'),
@@ -693,3 +723,19 @@ def cache_keys(ctx):
     between objects every attribute of self - that the cached value depends on through data or control flow."""
     from .common_cache import cache_keys as run
     run(ctx, [('transactions', lambda q: True), ('blocks', lambda q: True)], 'transactions and blocks')
+
+
+@PROP.obligation('C06.attr-memos')
+def attr_memos(ctx):
+    """Values cached in attributes of Input / Output / Transaction: every method that assigns state a cached value was computed from (and that the reuse test
+    does not validate) must reset the cache."""
+    from .common_cache import attr_memos as run
+    run(ctx, 'transactions', [['Input'], ['Output'], ['Transaction']], 'Input / Output / Transaction', 'the address / serialisation reported afterwards describes the previous state')
+
+
+@PROP.obligation('C06.arg-binding')
+def arg_binding(ctx):
+    """Calls inside transactions, blocks, scripts that pass two or more positional arguments: a variable passed positionally must not land on a parameter of another
+    name while the callee has a parameter of the variable's own name elsewhere (argument inserted / dropped / swapped)."""
+    from .common_argsel import arg_binding as run
+    run(ctx, ['transactions', 'blocks', 'scripts'], 'a field is parsed / serialised with the value of its neighbour')
